@@ -338,6 +338,7 @@ impl Prop for C18 {
     }
     fn run_shard(&self, ctx: &mut Ctx<'_>) {
         let slow = ctx.flavour == "miri";
+        // Miri: 16 single-shard processes, the driver divides VERIF_SCALE by 16: 6 / 40 groups per process
         let n = if slow { ctx.budget(16 * 6, 16 * 40) } else { ctx.budget(5_000, 120_000) };
         for i in 0..n {
             if i % 8 == 0 && ctx.should_stop() {
